@@ -499,6 +499,88 @@ void run_tostr(std::string const& s, char zero, char one, Out& impl, Out& ref)
     codes(ref, r.to_string(zero));
 }
 
+// the string constructor and to_string instantiated with wchar_t (32-bit codes)
+template <std::size_t B>
+void run_wstr(std::wstring const& s, u64 pos, u64 n, wchar_t zero, wchar_t one, Out& impl, Out& ref)
+{
+    auto wcodes = [](Out& o, auto const& t) {
+        o.num(static_cast<i64>(t.size()));
+        for (auto c : t) { o.num(static_cast<i64>(static_cast<std::uint32_t>(c))); }
+    };
+    guarded(impl, [&](Out& o) {
+        etl::bitset<B> b(etl::wstring_view(s.data(), s.size()), static_cast<std::size_t>(pos), static_cast<std::size_t>(n), zero, one);
+        codes(o, b.template to_string<B>());
+        wcodes(o, b.template to_string<B + 1, wchar_t>(zero, one));
+        // the wchar_t const* constructor denotes the same string when there is no NUL in it
+        if (pos == 0 && n == npos64 && s.find(L'\0') == std::wstring::npos) {
+            etl::bitset<B> alt(s.c_str(), etl::wstring_view::npos, zero, one);
+            if (!(alt == b)) { o.tok("routes-differ"); }
+        }
+    });
+    bool ok = pos <= s.size();
+    if (ok) {
+        // [bitset.cons] validation of all rlen characters (libstdc++ stops after min(N, rlen))
+        u64 rlen = std::min<u64>(n, s.size() - pos);
+        for (u64 j = 0; j < rlen; ++j) {
+            wchar_t c = s[static_cast<std::size_t>(pos + j)];
+            if (c != zero && c != one) { ok = false; }
+        }
+    }
+    if (!ok) { ref.tok("contract"); return; }
+    try {
+        std::bitset<B> r(s, static_cast<std::size_t>(pos), static_cast<std::size_t>(n), zero, one);
+        codes(ref, r.to_string());
+        wcodes(ref, r.template to_string<wchar_t>(zero, one));
+    } catch (std::exception const&) {
+        ref.tok("contract");
+    }
+}
+
+// the string constructor with a character traits class whose eq() is coarser than ==: ASCII letters compare
+// case-insensitively.  The case line carries the lower-case (canonical) codes, i.e. the eq-classes; the harness
+// upper-cases the letters at odd indices, so that a constructor comparing with == instead of Traits::eq differs.
+struct ci_etl_traits : etl::char_traits<char> {
+    static constexpr char low(char c) noexcept { return (c >= 'A' && c <= 'Z') ? static_cast<char>(c - 'A' + 'a') : c; }
+    static constexpr bool eq(char a, char b) noexcept { return low(a) == low(b); }
+    static constexpr bool lt(char a, char b) noexcept { return low(a) < low(b); }
+};
+struct ci_std_traits : std::char_traits<char> {
+    static constexpr bool eq(char a, char b) noexcept { return ci_etl_traits::low(a) == ci_etl_traits::low(b); }
+    static constexpr bool lt(char a, char b) noexcept { return ci_etl_traits::low(a) < ci_etl_traits::low(b); }
+};
+
+template <std::size_t B>
+void run_cistr(std::string const& canon, u64 pos, u64 n, char zero, char one, Out& impl, Out& ref)
+{
+    std::string s = canon;
+    for (std::size_t i = 1; i < s.size(); i += 2) {
+        if (s[i] >= 'a' && s[i] <= 'z') { s[i] = static_cast<char>(s[i] - 'a' + 'A'); }
+    }
+    guarded(impl, [&](Out& o) {
+        etl::basic_string_view<char, ci_etl_traits> sv(s.data(), s.size());
+        etl::bitset<B> b(sv, static_cast<std::size_t>(pos), static_cast<std::size_t>(n), zero, one);
+        codes(o, b.template to_string<B>());
+        codes(o, b.template to_string<B + 2, char, ci_etl_traits>(zero, one));
+    });
+    bool ok = pos <= s.size();
+    if (ok) {
+        u64 rlen = std::min<u64>(n, s.size() - pos);
+        for (u64 j = 0; j < rlen; ++j) {
+            char c = s[static_cast<std::size_t>(pos + j)];
+            if (!ci_std_traits::eq(c, zero) && !ci_std_traits::eq(c, one)) { ok = false; }
+        }
+    }
+    if (!ok) { ref.tok("contract"); return; }
+    try {
+        std::basic_string<char, ci_std_traits> str(s.data(), s.size());
+        std::bitset<B> r(str, static_cast<std::size_t>(pos), static_cast<std::size_t>(n), zero, one);
+        codes(ref, r.to_string());
+        codes(ref, r.template to_string<char, ci_std_traits>(zero, one));
+    } catch (std::exception const&) {
+        ref.tok("contract");
+    }
+}
+
 template <typename W>
 void run_popfb(u64 x, Out& impl, Out& ref)
 {
@@ -544,6 +626,38 @@ bool vh::run_case(std::string const& op, Toks& in, Out& impl, Out& ref)
         char one  = static_cast<char>(in.num());
         switch (bits) {
 #define X(Bv) case Bv: run_tostr<Bv>(s, zero, one, impl, ref); return true;
+            WIDTHS(X)
+#undef X
+        default: return false;
+        }
+    }
+    if (op == "wstr") {
+        auto bits = in.num();
+        std::wstring s;
+        auto len = in.num();
+        for (i64 c = 0; c < len; ++c) { s.push_back(static_cast<wchar_t>(in.num())); }
+        auto pos  = in.unum();
+        auto n    = in.unum();
+        auto zero = static_cast<wchar_t>(in.num());
+        auto one  = static_cast<wchar_t>(in.num());
+        switch (bits) {
+#define X(Bv) case Bv: run_wstr<Bv>(s, pos, n, zero, one, impl, ref); return true;
+            WIDTHS(X)
+#undef X
+        default: return false;
+        }
+    }
+    if (op == "cistr") {
+        auto bits = in.num();
+        std::string s;
+        auto len = in.num();
+        for (i64 c = 0; c < len; ++c) { s.push_back(static_cast<char>(in.num())); }
+        auto pos  = in.unum();
+        auto n    = in.unum();
+        auto zero = static_cast<char>(in.num());
+        auto one  = static_cast<char>(in.num());
+        switch (bits) {
+#define X(Bv) case Bv: run_cistr<Bv>(s, pos, n, zero, one, impl, ref); return true;
             WIDTHS(X)
 #undef X
         default: return false;
